@@ -455,7 +455,7 @@ def run(ctx):
     lines = ["A %s %s %d %s %d %d" % (c["t"], table[c["t"]] or "-", c["limit"], model_decl(c), c["actual"],
                                       1 if byid[c["id"]].get("valid") else 0) for c in todo]
     answers = hv.run_model("c13", lines)
-    agree = by_refusal = inconclusive = 0
+    agree = by_refusal = inconclusive = agree_race = 0
     disagreements = []
     covered = {}
     for c, line in zip(todo, answers):
@@ -475,7 +475,12 @@ def run(ctx):
             if m["truthful"] == "1":
                 inconclusive += 1
                 continue
-        if seen == want:
+        race_branch = (m["alt"] != m["client"] and c["decl"] in HONEST and o.get("io", 0) == 0 and o.get("fn", 0) == 0
+                       and decode_reply(c, o, decoded) in ("other:error", "nothing"))
+        if race_branch:
+            # Limit.caller_outcome ... TeardownFirst: the model allows it, the property does not (oracle below)
+            agree_race += 1
+        elif seen == want:
             agree += 1
             if len(ctx.cov["samples"]) < 6 and (over or c["decl"] not in ("truthful",)) and c["id"] % 37 == 0:
                 ctx.sample({"case": {k: c[k] for k in c if k != "hdr"}, "observed": seen, "model": line})
@@ -488,7 +493,8 @@ def run(ctx):
             by_refusal += 1
         else:
             disagreements.append((c, o, seen, want, line))
-    ctx.note("traces_validated_against_impl", agree + by_refusal)
+    ctx.note("traces_validated_against_impl", agree + by_refusal + agree_race)
+    ctx.note("agree_on_teardown_race_branch", agree_race)
     ctx.note("agree_exact", agree)
     ctx.note("agree_by_refusal_of_malformed_or_incomplete", by_refusal)
     ctx.note("inconclusive_lost_datagram", inconclusive)
